@@ -1,6 +1,8 @@
 package main
 
 import (
+	"context"
+	"os/exec"
 	"encoding/json"
 	"flag"
 	"fmt"
@@ -320,6 +322,44 @@ func cmdCheck(args []string) int {
 		total++
 		report("vacuity", v, "vacuous", "?", "a return became unreachable: contradictory assumptions", "")
 	}
+	// bounded stand-ins (never counted as proved): Go tests under /verif/bounded, injected into the real package with
+	// `go test -overlay` (nothing is written into the repository). Entry: "file|package dir|test regexp|stated bound".
+	var boundedRecs []map[string]interface{}
+	for _, bc := range pc.Bounded {
+		f := strings.SplitN(bc, "|", 4)
+		if len(f) != 4 {
+			engineErrs = append(engineErrs, "bounded check entry malformed: "+bc)
+			continue
+		}
+		src := filepath.Join(opt.Verif, "bounded", f[0])
+		dst := filepath.Join(opt.Repo, f[1], "zz_verif_bounded_"+filepath.Base(f[0]))
+		ovf := writeScratch("overlay_"+sanitize(f[0])+".json", fmt.Sprintf(`{"Replace":{%q:%q}}`, dst, src))
+		ctx, cancel := context.WithTimeout(context.Background(), 5*time.Minute)
+		cmd := exec.CommandContext(ctx, "go", "test", "-overlay", ovf, "-vet=off", "-count=1", "-timeout", "240s", "-run", f[2], "./"+f[1]+"/")
+		cmd.Dir = opt.Repo
+		tmp, _ := os.MkdirTemp("", "govc-bounded")
+		cmd.Env = append(os.Environ(), "GOFLAGS=-mod=mod", "GOPROXY=off", "GOSUMDB=off", "GOTOOLCHAIN=local", "TMPDIR="+tmp)
+		outb, err := cmd.CombinedOutput()
+		cancel()
+		os.RemoveAll(tmp)
+		rec := map[string]interface{}{"test": f[0] + " -run " + f[2] + " (package " + f[1] + ")", "bound": f[3], "label": "bounded: not counted in obligations / discharged"}
+		if err == nil {
+			rec["result"] = "passed"
+		} else {
+			rec["result"] = "FAILED"
+			violations++
+			os.MkdirAll(replayDir, 0755)
+			rp := filepath.Join(replayDir, "bounded_"+sanitize(f[0])+".txt")
+			tail := string(outb)
+			if len(tail) > 6000 {
+				tail = tail[len(tail)-6000:]
+			}
+			os.WriteFile(rp, []byte(fmt.Sprintf("property: %s\nbounded check (stand-in, %s)\nre-run: cd %s && go test -overlay <{\"Replace\":{%q:%q}}> -vet=off -run '%s' ./%s/\noutput:\n%s\n", prop, f[3], opt.Repo, dst, src, f[2], f[1], tail)), 0644)
+			outLines = append(outLines, fmt.Sprintf("VIOLATION property=%s replay=%s bounded-check=%s (failing input in the test output; test file %s)", prop, rp, f[0], src))
+			failed = append(failed, oblRec{"bounded", f[0], "failed", "go test", "?", "bounded stand-in failed"})
+		}
+		boundedRecs = append(boundedRecs, rec)
+	}
 	for _, e := range engineErrs {
 		outLines = append(outLines, "CONTRACT-ERROR: "+e)
 	}
@@ -387,6 +427,7 @@ func cmdCheck(args []string) int {
 		"known_findings_matched":   len(knownHit),
 		"known_finding_obligations": knownObls,
 		"engine_errors":            engineErrs,
+		"bounded_checks":           boundedRecs,
 	}
 	ev := map[string]interface{}{
 		"property_id": prop,
